@@ -427,6 +427,26 @@ const char *ares_uri_get_password(const ares_uri_t *uri)
   return uri->password;
 }
 
+/* An interface name may hold more than letters and digits (br-lan, eth0.100,
+ * ...).  Same set as the %iface modifier of the non-URI server syntax so that
+ * every server the channel can hold can also be written as a URI. */
+static ares_bool_t ares_uri_scope_valid(const char *scope)
+{
+  size_t i;
+
+  if (ares_strlen(scope) == 0) {
+    return ARES_FALSE;
+  }
+
+  for (i = 0; scope[i] != 0; i++) {
+    if (!ares_isalpha(scope[i]) && !ares_isdigit(scope[i]) &&
+        strchr(".-_\\:{}", scope[i]) == NULL) {
+      return ARES_FALSE;
+    }
+  }
+  return ARES_TRUE;
+}
+
 ares_status_t ares_uri_set_host(ares_uri_t *uri, const char *host)
 {
   struct ares_addr addr;
@@ -447,7 +467,7 @@ ares_status_t ares_uri_set_host(ares_uri_t *uri, const char *host)
   if (ll_scope != NULL) {
     *ll_scope = 0;
     ll_scope++;
-    if (!ares_str_isalnum(ll_scope)) {
+    if (!ares_uri_scope_valid(ll_scope)) {
       return ARES_EBADNAME;
     }
   }
